@@ -23,10 +23,77 @@ fn dims_str<T: std::fmt::Display>(d: &[T]) -> String {
     d.iter().map(|x| x.to_string()).collect::<Vec<_>>().join(".")
 }
 
-pub fn generate(seed: u64, n: usize, tier: &str, out: &mut impl Write) {
+pub fn generate(seed: u64, n: usize, tier: &str, skip: &str, base_files: &[Vec<u8>], out: &mut impl Write) {
     let thorough = tier == "thorough";
     let mut rng = SplitMix64(seed);
 
+    if !skip.contains("hdr") {
+        gen_headers(&mut rng, n, out);
+    }
+    gen_constants(&mut rng, n, out);
+
+    // ---------------- whole-file byte mutations through Model::load (run-time observation only)
+    let reps = if thorough { 40 } else { 6 };
+    for base in base_files {
+        writeln!(out, "load:{}", hex(base)).unwrap();
+        for _ in 0..reps * (1 + n / 200) {
+            let mut m = base.clone();
+            match rng.below(6) {
+                0 => {
+                    let k = rng.below(m.len() as u64 + 1) as usize;
+                    m.truncate(k);
+                }
+                1 => {
+                    for _ in 0..1 + rng.below(4) {
+                        let k = rng.below(m.len() as u64) as usize;
+                        m[k] ^= 1 << rng.below(8);
+                    }
+                }
+                2 => {
+                    let k = rng.below(m.len() as u64) as usize;
+                    m[k] = rng.pick(&[0u8, 1, 0x7f, 0x80, 0xff, 4, 8, 0x20]);
+                }
+                3 => {
+                    // overwrite an aligned 4-byte word (FlatBuffers offsets / lengths, header fields)
+                    let k = (rng.below(m.len() as u64 / 4) * 4) as usize;
+                    let v: u32 = match rng.below(4) {
+                        0 => u32::MAX,
+                        1 => 1 << 31,
+                        2 => rng.below(m.len() as u64 * 2) as u32,
+                        _ => rng.next() as u32,
+                    };
+                    if k + 4 <= m.len() {
+                        m[k..k + 4].copy_from_slice(&v.to_le_bytes());
+                    }
+                }
+                4 => {
+                    // overwrite an aligned 8-byte word
+                    let k = (rng.below(m.len() as u64 / 8) * 8) as usize;
+                    let v: u64 = rng.pick(&U64X);
+                    if k + 8 <= m.len() {
+                        m[k..k + 8].copy_from_slice(&v.to_le_bytes());
+                    }
+                }
+                _ => {
+                    let k = rng.below(m.len() as u64) as usize;
+                    m.insert(k, rng.next() as u8);
+                }
+            }
+            writeln!(out, "load:{}", hex(&m)).unwrap();
+        }
+    }
+    for _ in 0..n / 10 {
+        let len = rng.below(64) as usize;
+        let mut b: Vec<u8> = (0..len).map(|_| rng.next() as u8).collect();
+        if rng.chance(1, 2) && len >= 4 {
+            b[..4].copy_from_slice(b"RTEN");
+        }
+        writeln!(out, "load:{}", hex(&b)).unwrap();
+    }
+}
+
+fn gen_headers(rng: &mut SplitMix64, n: usize, out: &mut impl Write) {
+    let mut rng = SplitMix64(rng.next());
     // ---------------- headers
     for total in [0usize, 3, 4, 7, 8, 15, 16, 23, 24, 31, 32, 33, 64, 100] {
         let mut b = header_bytes(b"RTEN", 2, 32, (total as u64).saturating_sub(32), total as u64);
@@ -75,6 +142,10 @@ pub fn generate(seed: u64, n: usize, tier: &str, out: &mut impl Write) {
         writeln!(out, "hdr:{}", hex(&b)).unwrap();
     }
 
+}
+
+fn gen_constants(rng: &mut SplitMix64, n: usize, out: &mut impl Write) {
+    let mut rng = SplitMix64(rng.next());
     // ---------------- .rten constants
     let dtypes = ["f32", "i32", "i8", "u8"];
     let esize = |d: &str| if d == "f32" || d == "i32" { 4u64 } else { 1 };
@@ -202,6 +273,4 @@ pub fn generate(seed: u64, n: usize, tier: &str, out: &mut impl Write) {
         writeln!(out, "onnx:{},{},{},{}", t, dims_str(&sh), src, nn.min(if src == "typed" { 48 } else { 96 })).unwrap();
     }
 
-    // ---------------- whole-file byte mutations through Model::load (run-time observation only)
-    let _ = thorough;
 }
